@@ -796,12 +796,18 @@ def d6_numpy_state(ctx, idx):
         if len(seen.get('seterr', [])) == 1:
             c = seen['seterr'][0]
             kws = {k.arg: nf.const_value(k.value) for k in c.keywords}
+            if 'all' in kws:
+                # np.seterr(all=X) sets divide, over, under and invalid at once (explicit keywords override it)
+                for k in ('divide', 'over', 'under', 'invalid'):
+                    kws.setdefault(k, kws['all'])
             for k in ('divide', 'over', 'invalid'):
                 r.check(kws.get(k) == 'call', "np.seterr(%s=...)" % k, "'call'",
                         "np.seterr no longer sets %s='call' (found %r): such floating-point errors yield inf/nan silently" % (k, kws.get(k)),
                         lib.mloc(mexpr, c), expected="'call'", found=repr(kws.get(k)))
             if kws.get('under') not in (None, 'ignore'):
-                r.violation("np.seterr(under=...)", 'underflow handling changed to %r' % kws.get('under'), lib.mloc(mexpr, c))
+                r.violation("np.seterr(under=...)", 'underflow handling changed to %r: handle_np_floating_errors has no branch for '
+                            'underflow, so a tiny but valid result (exp(-1000)) is turned into an error instead of a value near 0' % kws.get('under'),
+                            lib.mloc(mexpr, c), expected="under left at 'ignore'")
         if len(seen.get('seterrcall', [])) == 1:
             c = seen['seterrcall'][0]
             ok = len(c.args) == 1 and isinstance(c.args[0], ast.Name) and c.args[0].id == 'handle_np_floating_errors'
@@ -863,6 +869,7 @@ def _np_error_table(idx, h):
 
 # ------------------------------------------------------------------------ self-test
 MUTANTS = [
+    Mutant('seterr-all-call (seed C15d)', EXPR, "np.seterr(divide='call', over='call', invalid='call')", "np.seterr(all='call')", 'D6'),
     Mutant('exception-needs-two-arguments (seed C02c)', 'mitxgraders/helpers/calc/exceptions.py', 'class UnbalancedBrackets(CalcError):\n    \"\"\"\n    Indicate when a student\'s input has unbalanced brackets.\n    \"\"\"\n',
            'class UnbalancedBrackets(CalcError):\n    \"\"\"\n    Indicate when a student\'s input has unbalanced brackets.\n    \"\"\"\n    def __init__(self, message, highlight=None, *, formula):\n        super(UnbalancedBrackets, self).__init__(message)\n', 'D4'),
     Mutant('generic-template-tainted', BASE, "                    formatted = msg.format(student_input)", "                    formatted = (msg.format('') + student_input + \"'\").format()", 'D1'),
